@@ -317,6 +317,31 @@ XalanNamespacesStack::getNamespaceForPrefix(const XalanDOMString&   thePrefix) c
 
 
 
+const XalanDOMString*
+XalanNamespacesStack::getPrefixForNamespace(const XalanDOMString&   theURI) const
+{
+    const XalanDOMString* const     thePrefix =
+        findEntry(theURI, &value_type::getPrefixForNamespace);
+
+    if (thePrefix != 0)
+    {
+        // The prefix may have been bound to a different namespace
+        // in a nearer context, in which case it cannot be used.
+        const XalanDOMString* const     theCurrentURI =
+            getNamespaceForPrefix(*thePrefix);
+
+        if (theCurrentURI == 0 ||
+            equals(*theCurrentURI, theURI) == false)
+        {
+            return 0;
+        }
+    }
+
+    return thePrefix;
+}
+
+
+
 bool
 XalanNamespacesStack::prefixIsPresentLocal(const XalanDOMString&    thePrefix)
 {
